@@ -665,3 +665,37 @@ func TestC08GenCorpus(t *testing.T) {
 	}
 	t.Logf("wrote %d seeds", n)
 }
+
+// TestC08Illegal feeds the Conn authentic-but-illegal hellos (the C04 generator: a payload
+// that really opens under the server's key, with 1..3 rule violations injected before or
+// after sealing), i.e. inputs that get past decryption into the rarely travelled checking
+// code. The oracle here is C08's only: no panic, no hang, bounded allocation.
+func TestC08Illegal(t *testing.T) {
+	rec := ev.Get("C08")
+	rapid.Check(t, func(t *rapid.T) {
+		record, key, _, desc, _ := c04Build(t)
+		in := c08Input{Keys: []*hello.Key{key}}
+		if rapid.Bool().Draw(t, "second_key") {
+			in.Keys = append([]*hello.Key{drawKey(t, "k2", int(key.ID), key.PublicName)}, in.Keys...)
+		}
+		in.Client = append(in.Client, record...)
+		for i, n := 0, rapid.IntRange(0, 3).Draw(t, "tail_n"); i < n; i++ {
+			in.Client = append(in.Client, hello.Record(byte(20+rapid.IntRange(0, 3).Draw(t, "tail_ct")), 0x0303, hello.GenBytes(t, "tail_b", rapid.IntRange(0, 60).Draw(t, "tail_l")))...)
+		}
+		in.Sched = hello.GenBytes(t, "sched", rapid.IntRange(1, 32).Draw(t, "schedlen"))
+		var viol string
+		var accepted bool
+		watch("C08", in.replay(), func() { viol, _, accepted = c08Drive(in, true) })
+		if viol != "" {
+			ev.Violation(t, "C08", in.replay(), "%s (authentic hello with faults %v)", viol, desc)
+		}
+		cl := []string{"authentic_but_illegal"}
+		if accepted {
+			cl = append(cl, "ech_accepted")
+		}
+		sum := sha256.Sum256(in.Client)
+		rec.Case(hx(sum[:8]), true, cl, func() any {
+			return map[string]any{"kind": "authentic_but_illegal", "faults": desc, "client_len": len(in.Client)}
+		})
+	})
+}
